@@ -51,6 +51,7 @@ def cases(tier, seed):
             if f.get("else") is not None:
                 f["else"] = None
             k = rng.choice(keys)
+            f["hole_orig"] = [k, f["table"][k]]
             f["table"][k] = None
         # keep the design otherwise satisfiable-ish: drop constraints that refer to the mutated factor
         if variant != "proper":
@@ -82,6 +83,15 @@ def run_case(case):
     if cerr is not None:
         counters["rejected_by_constructor"] = 1
         if variant == "hole":
+            # does the design without the hole fail in the same way? then the failure is not about totality
+            import copy
+            twin = copy.deepcopy(spec)
+            k, orig = twin["factors"][target].pop("hole_orig")
+            twin["factors"][target]["table"][k] = orig
+            b2, _, e2 = O.construct(twin, strict=True)
+            if e2 is not None and e2["exc"] == cerr["exc"] and e2["func"] == cerr["func"]:
+                counters["constructor_fails_without_hole_too"] = 1
+                return {"nontrivial": False, "violations": [], "counters": counters, "cls": variant}
             counters["hole_judged"] = 1
             # a refusal at construction is also "no sequences", but the statement says synthesis reports it
             if cerr["exc"] not in ("ValueError", "RuntimeError") or cerr.get("in_predicate"):
